@@ -240,6 +240,26 @@ def rule_N1(ctx, files=None):
 
 
 # ------------------------------------------------------------------ D3: stale sine / cosine of a corrected angle
+def _exclusive_arms(f, a, b):
+    """are the nodes a and b in different arms of one IfStmt / ConditionalOperator?"""
+    anc_a = list(f.ancestors(a))
+    chain_a = [a] + anc_a
+    set_b = set([b] + list(f.ancestors(b)))
+    for k, x in enumerate(anc_a):
+        n = f.nodes[x]
+        if n['k'] in ('IfStmt', 'ConditionalOperator') and x in set_b:
+            t, e = n.get('then', -1), n.get('else', -1)
+            if t < 0 or e < 0:
+                return False
+            child_a = chain_a[k]
+            in_then_a = child_a == t or t in chain_a[:k + 1]
+            in_else_a = child_a == e or e in chain_a[:k + 1]
+            in_then_b = t in set_b
+            in_else_b = e in set_b
+            return (in_then_a and in_else_b) or (in_else_a and in_then_b)
+    return False
+
+
 def rule_D3(ctx, files=None):
     res = RuleResult('D3', 'stale companions: when a local holds sin(v) or cos(v) and v is assigned again afterwards (a Newton '
                            'correction), the sine/cosine is recomputed before it is read again')
@@ -272,6 +292,8 @@ def rule_D3(ctx, files=None):
             for pos2, v2, rhs2, st2, isdecl2, vname in defs:
                 if v2 != v or pos2 <= pos or isdecl2:
                     continue
+                if _exclusive_arms(f, st, st2):
+                    continue          # the definition and the reassignment sit in different arms of one if: never both run
                 redefs = [p3 for p3, w3, _, _, _, _ in defs if w3 == w and p3 > pos2]
                 nxt = min(redefs) if redefs else (10 ** 9, 0)
                 inside = set(f.walk(st2))
